@@ -222,6 +222,7 @@ def first_repo_frame(text):
             continue
         fn = re.sub(r"\(.*$", "", fn)
         fn = re.sub(r"<.*>", "", fn)
+        fn = re.sub(r"<.*$", "", fn).strip().replace(" ", "-")  # template argument list cut open by the line above
         return "%s:%s" % (os.path.basename(path), fn.split("::")[-1] if "lambda" not in fn else fn.split("::")[-2] + "-lambda")
     return "?"
 
